@@ -67,14 +67,14 @@ NestedCases == {[content |-> ct, attrs |-> <<>>, order |-> "before"] :
                                  p \in NestSubjects, omin \in Mins, omax \in Maxs, imin \in Mins, imax \in Maxs}}
 
 \* thorough: every builtin in every position, and member triples
-AllBuiltinSubjects == {El("subjectMember", B(b), mn, mx) : b \in Builtins, mn \in Mins, mx \in Maxs}
-PositionAllCases == {[content |-> ct, attrs |-> <<>>, order |-> "before"] :
-                       ct \in UNION {Position(p, omin, omax) : p \in AllBuiltinSubjects, omin \in Mins, omax \in Maxs}}
+AllBuiltinSubjects(u) == {El("subjectMember", B(b), mn, mx) : b \in Builtins, mn \in Mins, mx \in Maxs}
+PositionAllCases(u) == {[content |-> ct, attrs |-> <<>>, order |-> "before"] :
+                       ct \in UNION {Position(p, omin, omax) : p \in AllBuiltinSubjects(u), omin \in Mins, omax \in Maxs}}
 TripleSet == {El("firstMember", B("string"), 1, "1"), El("firstMember", T("t", "OtherType"), 0, "unb"), Ref("t", "GlobalThing", 0, "1"),
               SeqP(0, "unb", << El("innerMember", B("int"), 1, "1") >>),
               ChoiceP(<< El("leftBranch", B("string"), 1, "1"), El("rightBranch", B("long"), 0, "1") >>)}
 Rename3(p) == IF p.k = "el" /\ p.n = "firstMember" THEN [p EXCEPT !.n = "tailMember"] ELSE p
-TripleCases == {x \in {[content |-> << SeqP(1, "1", <<a, b, d>>) >>, attrs |-> <<>>, order |-> "before"] :
+TripleCases(u) == {x \in {[content |-> << SeqP(1, "1", <<a, b, d>>) >>, attrs |-> <<>>, order |-> "before"] :
                           a \in TripleSet, b \in {Rename(y) : y \in TripleSet}, d \in {Rename3(y) : y \in TripleSet}} :
                   /\ x.content[1].ps[1] # x.content[1].ps[2] /\ x.content[1].ps[2] # x.content[1].ps[3] /\ x.content[1].ps[1] # x.content[1].ps[3]
                   /\ Cardinality({x.content[1].ps[i].k : i \in 1..3} \cap {"ref"}) + Cardinality({i \in 1..3 : x.content[1].ps[i].k = "ref"}) <= 2
@@ -130,8 +130,8 @@ Space == CASE Slice = "builtins" -> BuiltinCases
            [] Slice = "homonym" -> HomonymCases
            [] Slice = "toplevel" -> TopLevelCases
            [] Slice = "recursive" -> RecursiveCases
-           [] Slice = "positions_all" -> PositionAllCases
-           [] Slice = "triples" -> TripleCases
+           [] Slice = "positions_all" -> PositionAllCases(0)
+           [] Slice = "triples" -> TripleCases(0)
            [] Slice = "nested" -> NestedCases
            [] Slice = "positions" -> PositionCases
            [] Slice = "attrs" -> AttrCases
